@@ -234,6 +234,61 @@ theorem or_not_jointly_atomic :
   rw [h]
   decide +kernel
 
+/-! ### delegates of `Each` that call another provider; `Clone` yields a fresh lock -/
+
+/-- a call `x.Each(func(v){ y.M(v) })` whose delegate makes `k` calls on the wrapper with mutex `y`, as a call of the lock
+LTS: the receiver's lock is held, each nested call takes and releases `y`'s (`snapshot = false`) -/
+def eachNested (x y k : Nat) : Call Unit Unit :=
+  { recv := x, operand := some y, cbs := k, locked := true, opLocked := true, snapshot := false, f := fun _ _ => ((), ()) }
+
+/-- **The guard for delegates.** Programs mixing ordinary calls (live protocol) with `Each` calls whose delegate calls
+ANOTHER wrapper (`y ≠ x`) never deadlock, under every interleaving, provided either a single thread makes them (in any
+direction: clone → original, original → clone, operand, unrelated wrapper) or all nested calls go up one fixed order
+of the wrappers (`x < y`). -/
+theorem each_delegate_other_wrapper {D R : Type} (n : Nat) (d0 : Nat → D) (dflt : D) (progs : Nat → List (Call D R))
+    (hidle : ∀ t, n ≤ t → progs t = [])
+    (hok : ∀ t, ∀ c ∈ progs t, (c.operand ≠ none → c.snapshot = true) ∨ (c.snapshot = false ∧ ∃ o, c.operand = some o ∧ o ≠ c.recv))
+    (hguard : n ≤ 1 ∨ ∀ t, ∀ c ∈ progs t, ∀ o, c.snapshot = false → c.operand = some o → c.recv < o)
+    (s : State D R) (hr : Reach (init d0 dflt progs) s) : deadlocked n s = false := by
+  have inv : NInv n s := nInv_reach (fun t c hc => ⟨hok t c hc, fun o h1 h2 => by
+    rcases hguard with h | h
+    · exact Or.inr h
+    · exact Or.inl (h t c hc o h1 h2)⟩) hidle hr
+  match n, inv, hidle with
+  | 0, _, _ => rfl
+  | 1, inv, _ => exact not_deadlocked_single inv
+  | n + 2, inv, _ => exact not_deadlocked_ordered inv (by omega)
+
+/-- … and the guard is needed: a delegate that calls the wrapper it is iterating (`x.Each(func(v){ x.M(v) })`) blocks
+forever in every schedule — the documented self-deadlock of a non-reentrant mutex — and two threads nesting in opposite
+directions (`x.Each → y`, `y.Each → x`) can reach a deadlocked state. -/
+theorem each_self_deadlocks :
+    (∀ s, Reach (unitInit (fun t => if t = 0 then [eachNested 0 0 1] else [])) s → (s.th 0).todo ≠ []) ∧
+    (∃ s, Reach (unitInit (fun t => if t = 0 then [eachNested 0 1 1] else if t = 1 then [eachNested 1 0 1] else [])) s ∧
+      deadlocked 2 s = true) := by
+  constructor
+  · have h := wrapper_deadlock_free_old_refuted_self.2
+    have e : (fun t => if t = 0 then [eachNested 0 0 1] else []) = selfProgs false := by
+      funext t; cases t <;> rfl
+    rw [e]; exact h
+  · obtain ⟨s, hr, hd, _⟩ := wrapper_deadlock_free_old_refuted_abba
+    have e : (fun t => if t = 0 then [eachNested 0 1 1] else if t = 1 then [eachNested 1 0 1] else []) = abbaProgs false 1 1 := by
+      funext t
+      match t with
+      | 0 => rfl
+      | 1 => rfl
+      | t + 2 => rfl
+    rw [e]; exact ⟨s, hr, hd⟩
+
+/-- **Clone yields a fresh lock** (the "independent copy" clause): in the model every provider owns its mutex, and a
+clone's is free — so a delegate of `Each` on the clone that calls the original, and a delegate of `Each` on the
+original that calls the clone, always return, with the contents the set spec prescribes. -/
+theorem clone_fresh_lock (x q : Prov) (h : x.clone = some q) (k : Nat) (m : NestedM) :
+    (eachCall q x k m).isSome = true ∧ (eachCall x q k m).isSome = true ∧
+    (eachCall q x k m).map (·.set) = some (((if k = 0 then q.set else eachPrefix q.set k)).foldl (nestedApply m) x.set) := by
+  obtain ⟨_, _, _, hq, hx⟩ := clone_independent x q h
+  simp [eachCall, hq, hx]
+
 /-! ### the one-lock reduction of Proofs/RWLock (shared with C16), instantiated -/
 
 /-- one thread-safe duplex wrapper whose callers pass plain operands, as an object of the generic lock LTS: a
